@@ -286,41 +286,87 @@ fn run_streams(ctx: &Ctx) -> CheckResult {
 }
 
 /// Thorough: a single update with a slice longer than u32::MAX.
+/// One `update` whose slice is longer than 2^32 bytes (all-zero slab, lazily mapped), after `pre`
+/// bytes: the length is unknown afterwards, finalization is the too-large error under the most
+/// permissive options, and further data does not make the length known again.
+pub fn case_hugeslice(va: &dyn VariantApi, big: &[u8], pre: usize, len: usize, room: Option<u32>) -> Result<(), String> {
+    let v = va.v();
+    // `room`: an injected state (hook) with room for exactly this many more window positions, so
+    // that the pass costs `room` bytes instead of 4 GiB; None = a fresh generator
+    let mut g = match room {
+        None => va.generator(),
+        Some(k) => {
+            let mut gs = StateSpec { buckets: BucketClass::Plausible, len: LenClass::Big, seed: k as u64 }.render(v);
+            gs.len = (u32::MAX - 3) - k;
+            va.gen_from_state(&gs).ok_or("hook gen_from_state not available")?
+        }
+    };
+    g.update(&big[..pre]);
+    let r = catch(|| {
+        g.update(&big[..len]);
+        (g.processed_len(), g.finalize(Opts::from_index(Opts::PERMISSIVE_INDEX)).map(|h| h.display()))
+    });
+    match r {
+        Ok((None, Err(GErr::TooLarge))) => {}
+        other => {
+            return Err(format!(
+                "{}{}: one update with {} bytes after {} bytes gave {:?}; expected processed_len None and TooLargeInput",
+                v.name,
+                room.map(|k| format!(" (injected state with room for {} more bytes)", k)).unwrap_or_default(),
+                len,
+                pre,
+                other
+            ))
+        }
+    }
+    g.update(b"more");
+    if g.processed_len().is_some() {
+        return Err(format!("{}: processed_len became known again after a {}-byte update", v.name, len));
+    }
+    Ok(())
+}
+
+pub const HUGE: usize = (1usize << 32) + 4096;
+
 fn run_hugeslice(ctx: &Ctx) -> CheckResult {
-    if ctx.tier == crate::ctx::Tier::Quick {
-        ctx.skipped("hugeslice: thorough tier only (allocates 4.3 GB)");
+    let quick = ctx.tier == crate::ctx::Tier::Quick;
+    if quick && ctx.config != "default" {
+        ctx.skipped("hugeslice: quick tier runs it in the default configuration only");
         return Ok(());
     }
-    let big = vec![0x5au8; (TWO32 + 4096) as usize];
-    for va in ctx.api.variants() {
-        let v = va.v();
-        for pre in [0usize, 3, 10] {
-            let mut g = va.generator();
-            g.update(&big[..pre]);
-            let r = catch(|| {
-                g.update(&big);
-                (g.processed_len(), g.finalize(Opts::from_index(Opts::PERMISSIVE_INDEX)).map(|h| h.display()))
-            });
-            ctx.ev.borrow_mut().evaluations += 1;
-            match r {
-                Ok((None, Err(GErr::TooLarge))) => {}
-                other => {
-                    return Err(ctx.violation(
-                        "hugeslice",
-                        format!("{}: one update with {} bytes after {} bytes gave {:?}; expected processed_len None and TooLargeInput", v.name, big.len(), pre, other),
-                        json!({"variant": v.name, "pre": pre}),
-                    ))
-                }
-            }
-            // more data is ignored
-            g.update(b"more");
-            if g.processed_len().is_some() {
-                return Err(ctx.violation("hugeslice", format!("{}: processed_len became known again", v.name), json!({"variant": v.name, "pre": pre})));
+    let big = vec![0u8; HUGE];
+    let vs = ctx.api.variants();
+    let lens = [HUGE, (1 << 32) + 4, 1 << 32, HUGE - 1, (1 << 32) + 300];
+    let mut jobs: Vec<(usize, usize, usize, Option<u32>)> = Vec::new();
+    for i in 0..vs.len() {
+        let hook = vs[i].gen_from_state(&StateSpec { buckets: BucketClass::Plausible, len: LenClass::Big, seed: 0 }.render(vs[i].v())).is_some();
+        if hook {
+            for (j, &k) in super::c03::ROOMS.iter().enumerate() {
+                jobs.push((i, [0usize, 3, 10][j % 3], lens[(i + j) % 5], Some(k)));
             }
         }
-        ctx.ev.borrow_mut().nontrivial_enumerated += 3;
+        if quick {
+            // one fresh generator per run (a full 4 GiB pass), rotating over variants and lengths
+            if i == (ctx.seed % vs.len() as u64) as usize {
+                jobs.push((i, [3usize, 0, 10][(ctx.seed % 3) as usize], lens[(ctx.seed % 5) as usize], None));
+            }
+        } else {
+            for pre in [0usize, 3, 10] {
+                for len in [HUGE, (1 << 32) + 4, 1 << 32] {
+                    jobs.push((i, pre, len, None));
+                }
+            }
+        }
     }
-    ctx.ev.borrow_mut().sample(json!({"check": "hugeslice", "slice_len": big.len()}));
+    let res = par_map(ctx.threads, &jobs, |&(i, pre, len, room)| case_hugeslice(vs[i], &big, pre, len, room));
+    for (&(i, pre, len, room), r) in jobs.iter().zip(res) {
+        ctx.ev.borrow_mut().evaluations += 1;
+        ctx.ev.borrow_mut().nontrivial_enumerated += 1;
+        if let Err(m) = r {
+            return Err(ctx.violation("hugeslice", m, json!({"variant": vs[i].v().name, "pre": pre, "len": len, "room": room})));
+        }
+    }
+    ctx.ev.borrow_mut().sample(json!({"check": "hugeslice", "slice_lens": "2^32, 2^32+4, 2^32+300, 2^32+4095, 2^32+4096", "jobs": jobs.len()}));
     Ok(())
 }
 
@@ -332,6 +378,12 @@ pub fn replay(ctx: &Ctx, check: &str, case: &Value) -> Result<(), String> {
         "cross" | "marks" | "history" => {
             let c: Cross = serde_json::from_value(case.get("cross").cloned().ok_or("no cross")?).map_err(|e| e.to_string())?;
             case_cross(va, &c, &st)
+        }
+        "hugeslice" => {
+            let pre = case.get("pre").and_then(|x| x.as_u64()).unwrap_or(0) as usize;
+            let len = case.get("len").and_then(|x| x.as_u64()).unwrap_or(HUGE as u64) as usize;
+            let room = case.get("room").and_then(|x| x.as_u64()).map(|x| x as u32);
+            case_hugeslice(va, &vec![0u8; HUGE], pre, len.min(HUGE), room)
         }
         _ => Err(format!("check {} is replayed by re-running the thorough tier", check)),
     }
